@@ -59,7 +59,7 @@ func bases() []base {
 	out = append(out, base{name: "join", where: []bqlm.Clause{cl(bt("?s"), pc("ki"), bt("?v")), cl(bt("?s"), pc("kf"), bt("?w"))}, proj: []bqlm.Proj{pj("?s"), pj("?v"), pj("?w")}, keys: []string{"?w", "?v"}})
 	// aggregate outputs
 	out = append(out, base{name: "agg", where: []bqlm.Clause{cl(bt("?s"), pc("kn"), bt("?v"))}, proj: []bqlm.Proj{pj("?v"), {Binding: "?s", Op: "count", Alias: "?c"}}, group: []string{"?v"}, keys: []string{"?c", "?v"}})
-	out = append(out, base{name: "aggsum", where: []bqlm.Clause{cl(bt("?s"), bt("?p"), bt("?o")), cl(bt("?s"), pc("ki"), bt("?n"))}, proj: []bqlm.Proj{pj("?p"), {Binding: "?n", Op: "sum", Alias: "?sum"}}, group: []string{"?p"}, keys: []string{"?sum", "?p"}})
+	out = append(out, base{name: "aggsum", where: []bqlm.Clause{cl(bt("?s"), bt("?p"), bt("?o")), cl(bt("?s"), pc("ki"), bt("?n"))}, proj: []bqlm.Proj{pj("?p"), {Binding: "?n", Op: "sum", Alias: "?sum"}}, group: []string{"?p"}, keys: []string{"?sum"}}) // ?p is not a key here: a group merging one instant written in two zones has no single printed form
 	return out
 }
 
